@@ -62,7 +62,8 @@ def gen(args):
     user_mag = {'mode': 'reflect'}
     user_ext = {'mag_pad_opts': {'mode': 'reflect'}}
     for si, sq in enumerate(seqs):
-        x = np.array(sq, dtype=float)
+        # (every third signal is stored as integers: extrema, padding and envelopes are real-valued whatever the input dtype)
+        x = np.array(sq, dtype=(np.int64 if si % 3 == 2 else float))
         N = len(x)
         for pw in range(0, 6):
             for parab in (0, 1):
